@@ -364,6 +364,7 @@ def obligations(ctx):
     wrappers_obligation(ctx)
     text_slicing_obligation(ctx)
     base58_obligation(ctx)
+    byte_helpers_obligation(ctx)
 
 
 def decoders_obligation(ctx):
@@ -801,4 +802,53 @@ def base58_obligation(ctx):
         bs = [b if b is not None else (m.eval(z3.Int("byte%d" % i), model_completion=True).as_long() if m is not None else 0x31) for i, b in enumerate(shape)]
         name = b"ByronBase58"
         return "e2n_c02_text", [[len(name)]] + [[x] for x in name] + [[len(bs) & 0xff, len(bs) >> 8]] + [[x] for x in bs]
+    ob.finish(agg, nat)
+
+
+# ---------------------------------------------------------------- crate helpers that walk raw bytes (byte-level reader model)
+def byte_helpers_obligation(ctx):
+    """read_bounded_bytes (Plutus byte strings and big-integer payloads: definite, or chunked with the 64-byte chunk bound) and
+    read_nint are executed from MIR over a byte-level model of the reader (mir2smt/bytemodel.py) on EVERY buffer of 0..4 bytes
+    (quick: 0..3): truncated headers, truncated chunks, nested indefinite chunks, missing break - no path may panic."""
+    from prove import Obligation
+    from engine import Engine, VRef, Cell, Unsupported
+    import bytemodel as BM
+    import z3
+    P = ctx.P
+    nmax = 4 if ctx.tier == "thorough" else 3
+    ob = Obligation(ctx, "c02_e2_byte_helpers_total", "every buffer of 0..%d arbitrary bytes" % nmax, ["utils::read_bounded_bytes", "serialization::utils::read_nint"], fallback_native="e2n_c02_decode")
+    agg = Engine(P)
+    nret = 0
+    for fn in ("read_bounded_bytes", "read_nint"):
+        cands = [d for d in P.fns if re.search(r"(^|::)%s$" % fn, d)]
+        if not cands:
+            ob.fail("%s not found in the MIR" % fn); continue
+        for n in range(0, nmax + 1):
+            E = Engine(P, max_loop=n + 3)
+            E.U = agg.U
+            BM.install(E)
+            bs = [E.sym_int("byte%d" % i, "u8") for i in range(n)]
+            def mk(E=E, bs=bs):
+                for b in bs:
+                    E.pc.append(z3.And(b.t >= 0, b.t <= 255))
+                return [VRef(Cell(BM.VDeB([b.t for b in bs]), "raw"))]
+            try:
+                outs = E.explore(cands[0], mk, max_paths=20000)
+            except Unsupported as e:
+                ob.fail("%s on %d bytes: cannot be executed (%s)" % (fn, n, str(e)[:200])); continue
+            for o in outs:
+                if o.kind == "return":
+                    nret += 1
+                elif o.kind == "bound":
+                    ob.fail("%s on %d bytes: loop bound reached" % (fn, n))
+                else:
+                    ob.vc("%s on %d bytes: no panic (%s %s)" % (fn, n, o.kind, o.msg[:80]), o.pc, z3.BoolVal(False), info=dict(n=n, fn=fn))
+            agg.stats["paths"] += E.stats["paths"]; agg.stats["feasibility_queries"] += E.stats["feasibility_queries"]; agg.stats["functions"] |= E.stats["functions"]
+    if nret < 20:
+        ob.fail("only %d returning paths" % nret)
+    def nat(m, info=None):
+        info = info or {}
+        bs_ = [m.eval(z3.Int("byte%d" % i), model_completion=True).as_long() if m is not None else 0x5f for i in range(info.get("n", 0))]
+        name = b"PlutusData" if info.get("fn") == "read_bounded_bytes" else b"Int"
+        return "e2n_c02_decode", [[len(name)]] + [[x] for x in name] + [[len(bs_) & 0xff, len(bs_) >> 8]] + [[x] for x in bs_]
     ob.finish(agg, nat)
